@@ -119,6 +119,20 @@ pub struct Sandbox {
     pub root: PathBuf,
 }
 
+/// Remove sandbox directories left behind by processes that no longer exist (killed workers).
+pub fn sweep_stale_sandboxes() {
+    let Ok(rd) = std::fs::read_dir("/dev/shm") else { return };
+    for e in rd.flatten() {
+        let name = e.file_name();
+        let Some(name) = name.to_str() else { continue };
+        if let Some(pid) = name.strip_prefix("cbverif.").and_then(|p| p.parse::<i32>().ok()) {
+            if !Path::new(&format!("/proc/{pid}")).exists() {
+                let _ = std::fs::remove_dir_all(e.path());
+            }
+        }
+    }
+}
+
 impl Sandbox {
     pub fn new() -> Sandbox {
         let root = PathBuf::from(format!("/dev/shm/cbverif.{}", std::process::id()));
